@@ -47,7 +47,7 @@ func (r *StringLiteralReader) ReadStringLiteral() (models.Token, error) {
 					fmt.Sprintf("invalid escape sequence: %v", err),
 					models.Location{Line: r.pos.Line, Column: r.pos.Column},
 					string(r.input),
-				)
+				).WithCause(err)
 			}
 			continue
 		}
